@@ -385,6 +385,9 @@ pub fn run_check<P: Prop>(prop: &P, tier: Tier, seed: u64) -> i32 {
                                     Verdict::Pass => {}
                                     Verdict::Skip(r) => {
                                         note_skip(r, &stop);
+                                        if r == "hang" && std::env::var("VERIF_SHOW_HANGS").is_ok() {
+                                            eprintln!("hang: {}", prop.describe(&case));
+                                        }
                                         *obs.skipped.entry(r.to_string()).or_insert(0) += 1
                                     }
                                     Verdict::Known(id) => *obs.known_attributed.entry(id).or_insert(0) += 1,
@@ -480,6 +483,9 @@ pub fn run_check<P: Prop>(prop: &P, tier: Tier, seed: u64) -> i32 {
                                 Verdict::Skip(r) => {
                                     if !failed_once.get() {
                                         note_skip(r, stop);
+                                        if r == "hang" && std::env::var("VERIF_SHOW_HANGS").is_ok() {
+                                            eprintln!("hang: {}", prop.describe(&case));
+                                        }
                                         *obs.skipped.entry(r.to_string()).or_insert(0) += 1;
                                     }
                                     Ok(())
